@@ -619,11 +619,12 @@ func checkC03(c *Ctx, r *Report) {
 	r.rule("C03.R6", "every BER header inside a payload announces its contents with enough (and no more than needed) length / tag / INTEGER octets (shared with C04.R9)", 6)
 	r.rule("C03.R7", "the buffers the octets are assembled in are empty at the first write, so the length members count exactly the octets of this file (shared with C15.R6)", 3)
 	r.rule("C03.R8", "the file is the header followed by exactly the records the count announces (shape of CDRFile.Encoding, shared with C15.R4): a writer that drops or reorders records has to write the count of what it writes", 1)
+	r.rule("C03.R9", "the file and header encoders write the list and the counters they are given (shared with C15.R7): an encoder that cuts the list or corrects a counter on its own leaves the other counters of dumpCdrFile describing another file", 3)
 	r.rule("C03.R5", "the file on disk is replaced by exactly the encoded octets, so the file length member equals the file size (shared with C15.R5)", 1)
 
 	f := c.fn("internal/sbi/processor", "dumpCdrFile")
 	key := fnKey(f)
-	r.shareFrom(c, checkC15, map[string]string{"C15.R4": "C03.R8"})
+	r.shareFrom(c, checkC15, map[string]string{"C15.R4": "C03.R8", "C15.R7": "C03.R9"})
 
 	// ---- R1
 	re := newRangeEval(f)
